@@ -437,6 +437,23 @@ def m_C09(v):
     """each participant settles exactly once for what the views reported"""
     out = []
     lp = v.deploy["lp"] if v.deploy else 2
+    if v.variant in gen.VESTED:
+        # vested variants: whatever the number of claim calls, a participant never receives more than
+        # tokens-per-ticket x the winning tickets the views reported when he settled
+        entitled, got = {}, {}
+        for i, k in enumerate(v.kind):
+            if k == "deploy" or v.ops[i][0].startswith("restore"):
+                entitled, got = {}, {}
+            if v.committed(i) and v.call[i]["ep"] == "claim":
+                c = v.call[i]["caller"]
+                pd = v.prev_dump(i)
+                if pd and c in pd[1] and pd[1][c].get("cl") == "0" and pd[1][c].get("range", "none") != "none":
+                    entitled[c] = int(pd[0]["per"]) * len(winners_of(pd[1][c]))
+                    got[c] = 0
+                if c in entitled:
+                    got[c] += xf_to(v.R[i], c, lp)
+                    if got[c] > entitled[c]:
+                        out.append((i, f"C09 participant {c} received {got[c]} launchpad tokens in total, entitled to {entitled[c]}"))
     for i, k in enumerate(v.kind):
         if not (v.kind[i] == "call" and v.call[i]["ep"] == "claim" and not v.call[i]["probe"]):
             continue
